@@ -142,7 +142,12 @@ func ZZ_C01_script() {
 // ZZ_C01_legacy: Base58Check P2PKH / P2SH on every net (Base58 itself: abstract bijection, C07).
 func ZZ_C01_legacy() {
 	net := zzNet()
+	if vParam("thorough", 0) == 0 && net != &chaincfg.MainNetParams {
+		return // quick: mainnet only (each net costs ~70 decoder paths per string shape)
+	}
 	hash := vBytes("hash", 20)
+	// at most two leading zero bytes in the hash (the leading-zero handling belongs to Base58, C07)
+	vAssume(hash[2] != 0)
 	var a Address
 	var err error
 	var ver byte
